@@ -60,9 +60,7 @@ def enumerate_with_tlc(ctx):
     asis = CFG % dict(b, fixed="FALSE", check="CONSTRAINT Emit")
     # design level: with the proposed repairs the round trip holds for everything the grammar can express
     fb = dict(b)
-    if not ctx.quick:
-        fb["size"] = 5          # the repaired model is re-checked at the quick bounds (it emits nothing)
-        fb["qsize"] = 5
+    fb["size"] = ctx.pick(4, 5)     # the repaired model is checked one size below the enumeration (it emits nothing)
     fixed = CFG % dict(fb, fixed="TRUE", check="INVARIANT RoundTrips")
     r_asis, r_fixed = X.tlc_parallel(ctx, [
         ("ExprTree", dict(cfg_text=asis, timeout=ctx.pick(300, 2400), heap="6g")),
